@@ -167,7 +167,8 @@ def nested(R, snap, rnd):
 
 
 def probes(R):
-    """Known finding D03: the bit-generator name of a RandomGeneratorNode is resolved in numpy.random and called, unaudited."""
+    """Former finding D03 (fixed in /repo): the bit-generator name of a RandomGeneratorNode was resolved in numpy.random and
+    CALLED, unaudited.  The witness is still replayed on every run; a call of a non-BitGenerator attribute is a violation again."""
     def rg(bit):
         J = lambda v: {"__class__": "str", "__module__": "builtins", "__loader__": "JsonNode", "content": json.dumps(v), "is_json": True}
         L = lambda items, i: {"__class__": "list", "__module__": "builtins", "__loader__": "ListNode", "content": items, "__id__": i}
@@ -177,7 +178,7 @@ def probes(R):
                 "content": {"bit_generator": D([("bit_generator", J(bit))], 10), "seed_seq": D([("entropy", J(1))], 20)}}
     case = {"schema": rg("default_rng"), "members": [], "tspec": "none", "tseed": 0, "show": "all", "T": None}
     rec = IO.run_impl_cases([case], shards=1)[0]
-    if rec["gut"] == "ok:" and "M:numpy.random|*" in rec["load_events"]:
+    if rec["gut"] == "ok:" and rec.get("load_calls"):
         R.violation({"kind": "unaudited-slot", "loader": "RandomGeneratorNode", "slot": "bit_generator"},
                     "RandomGeneratorNode resolves numpy.random.<bit_generator> (here default_rng) and calls it although nothing reports or audits that name",
                     {"case": {k: case[k] for k in ("schema", "members", "show")}, "T": None, "observed": rec})
